@@ -296,6 +296,6 @@ pub fn def() -> CheckDef {
                collect_protocol_fees pays exactly what was owed and resets it; no other instruction changes what is owed.  Non-trivial = history with a \
                swap of >=2 steps incl. a crossing or zero-liquidity gap with protocol rate > 0.  Adaptive-fee rates are decided in C14.",
         assumptions: vec!["nsvm runtime as in DESIGN.md §5", "H2 trace hook; cross-validated hook-free on single-segment swaps"],
-        subs: vec![sub("histories", 6000, 200_000, || history_strategy(false, false, 40), |c: &HistoryCase, l: &mut Local| check_history(c, l))],
+        subs: vec![sub("histories", 30_000, 600_000, || history_strategy(false, false, 40), |c: &HistoryCase, l: &mut Local| check_history(c, l))],
     }
 }
